@@ -1446,9 +1446,8 @@ theorem slStreamFrame_inv (fr : Frame.Frame) (h : Inv D H E r) : Inv D H E (slSt
     | exact knownStream_inv _ _ _ (unknownStream_inv _ _ h)
 
 theorem applyTableSize_inv (st : Frame.SettingsVal) (h : Inv D H E r) : Inv D H E (applyTableSize r st) := by
-  simp only [applyTableSize]; split
-  · exact h.congr rfl rfl rfl rfl rfl rfl rfl
-  · exact h
+  simp only [applyTableSize]
+  exact h.congr rfl rfl rfl rfl rfl rfl rfl
 
 theorem slFrame_inv (fr : Frame.Frame) (h : Inv D H E r) : Inv D H E (slFrame r fr) := by
   have hf : Inv D H E ({ r with fwd := r.fwd ++ [fr] } : R) := h.congr rfl rfl rfl rfl rfl rfl rfl
